@@ -1,0 +1,135 @@
+// SPDX-License-Identifier: MPL-2.0
+
+//! Verification hook (feature `verif-hooks`): scaled-down NTT-friendly fields built by the same
+//! `make_field!` macro and the same generic arithmetic as the deployed fields, so that a checker
+//! can enumerate whole fields.
+
+use super::*;
+use crate::fp::verif_small::*;
+
+make_field!(
+    /// `GF(17)` over `u8` words (single-word multiplication); verification only.
+    FieldV17,
+    u8,
+    u8,
+    FPV8_17,
+    1,
+);
+
+make_field!(
+    /// `GF(97)` over `u8` words (single-word multiplication); verification only.
+    FieldV97,
+    u8,
+    u8,
+    FPV8_97,
+    1,
+);
+
+make_field!(
+    /// `GF(193)` over `u8` words (single-word multiplication); verification only.
+    FieldV193,
+    u8,
+    u8,
+    FPV8_193,
+    1,
+);
+
+make_field!(
+    /// `GF(241)` over `u8` words (single-word multiplication); verification only.
+    FieldV241,
+    u8,
+    u8,
+    FPV8_241,
+    1,
+);
+
+make_field!(
+    /// `GF(257)` over `u16` words (single-word multiplication); verification only.
+    FieldV257,
+    u16,
+    u16,
+    FPV16_257,
+    2,
+);
+
+make_field!(
+    /// `GF(769)` over `u16` words (single-word multiplication); verification only.
+    FieldV769,
+    u16,
+    u16,
+    FPV16_769,
+    2,
+);
+
+make_field!(
+    /// `GF(7681)` over `u16` words (single-word multiplication); verification only.
+    FieldV7681,
+    u16,
+    u16,
+    FPV16_7681,
+    2,
+);
+
+make_field!(
+    /// `GF(12289)` over `u16` words (single-word multiplication); verification only.
+    FieldV12289,
+    u16,
+    u16,
+    FPV16_12289,
+    2,
+);
+
+make_field!(
+    /// `GF(40961)` over `u16` words (single-word multiplication); verification only.
+    FieldV40961,
+    u16,
+    u16,
+    FPV16_40961,
+    2,
+);
+
+make_field!(
+    /// `GF(61441)` over `u16` words (single-word multiplication); verification only.
+    FieldV61441,
+    u16,
+    u16,
+    FPV16_61441,
+    2,
+);
+
+make_field!(
+    /// `GF(257)` over `u16` words (split-word multiplication); verification only.
+    FieldS257,
+    u16,
+    u16,
+    FPS16_257,
+    2,
+);
+
+make_field!(
+    /// `GF(12289)` over `u16` words (split-word multiplication); verification only.
+    FieldS12289,
+    u16,
+    u16,
+    FPS16_12289,
+    2,
+);
+
+make_field!(
+    /// `GF(40961)` over `u16` words (split-word multiplication); verification only.
+    FieldS40961,
+    u16,
+    u16,
+    FPS16_40961,
+    2,
+);
+
+make_field!(
+    /// `GF(61441)` over `u16` words (split-word multiplication); verification only.
+    FieldS61441,
+    u16,
+    u16,
+    FPS16_61441,
+    2,
+);
+
